@@ -45,6 +45,46 @@ def anystr(rng, maxlen=10, extra=()):
     return rstr(rng, alpha, maxlen)
 
 
+class Twins:
+    """Remembers the strings handed out for one value and, now and then, returns a *twin* of an
+    earlier one: equal under a coarse key (casefold, surrounding blanks, a path separator) but
+    different in content — or the very same string again.  Every de-duplicated table (string
+    pool, sound list, bone / material names, DMX string table) must keep twins apart and merge
+    only exact repeats."""
+
+    def __init__(self, allow=None, rate=0.22):
+        self.seen = []
+        self.allow = allow      # predicate on the resulting string (format alphabet), or None
+        self.rate = rate
+
+    def twin_of(self, rng, s):
+        k = rng.randrange(0, 7)
+        if k == 0:
+            return s.swapcase()
+        if k == 1:
+            return s.upper()
+        if k == 2:
+            return s.lower()
+        if k == 3:
+            return s                                  # exact repeat: must share a slot
+        if k == 4:
+            return s.capitalize()
+        if k == 5:
+            return s.replace('ss', '\xdf') if 'ss' in s else s.replace('s', 'S', 1)   # casefold('ß') == 'ss'
+        return s.replace('/', '\\') if '/' in s else s + ' '
+
+    def __call__(self, rng, fresh):
+        """`fresh()` makes a new string; returns it or a twin of an earlier one."""
+        if self.seen and rng.random() < self.rate:
+            t = self.twin_of(rng, rng.choice(self.seen))
+            if self.allow is None or self.allow(t):
+                self.seen.append(t)
+                return t
+        t = fresh()
+        self.seen.append(t)
+        return t
+
+
 def grid(rng, lo=-64, hi=64, den=64):
     """A float with at most 6 binary (hence 6 decimal) fractional digits: exact under %.6f and float32."""
     return rng.randrange(lo * den, hi * den + 1) / den
@@ -83,6 +123,16 @@ class CmdSeq:
     def gen(self, rng, size=3, avoid=()):
         m = self.m
         seqs = {}
+        tw = Twins(allow=lambda t: all(0 < ord(ch) < 128 for ch in t))
+        raw_s = self._s
+        self._s = lambda rng, width: (lambda t: t if len(t) <= width else t[:width])(tw(rng, lambda: raw_s(rng, width)))
+        try:
+            return self._gen(rng, size, seqs)
+        finally:
+            del self._s
+
+    def _gen(self, rng, size, seqs):
+        m = self.m
         for _ in range(rng.randrange(0, size + 1)):
             cmds = []
             for _ in range(rng.randrange(0, size + 1)):
@@ -138,10 +188,17 @@ class ChoreoBase:
         self.mode = mode
 
     # ---- generation
-    def _str(self, rng, avoid, maxlen=8):
+    twins = None
+
+    def _fresh(self, rng, maxlen):
         if self.mode == 'img':
             return rstr(rng, LATIN1, maxlen) if rng.random() < 0.3 else rstr(rng, IDENT + [' '], maxlen)
         return anystr(rng, maxlen)
+
+    def _str(self, rng, avoid, maxlen=8):
+        if self.twins is None:
+            self.twins = Twins()
+        return self.twins(rng, lambda: self._fresh(rng, maxlen))
 
     def _time(self, rng):
         # exact in float32 and with six decimals
@@ -247,14 +304,26 @@ class ChoreoBase:
             comb = rng.random() < 0.5
             if ct is c.CaptionType.Disabled:
                 comb = False   # not written for disabled captions, by design of the writer
-            return c.SpeakEvent(caption_type=ct, cc_token=self._str(rng, avoid) if rng.random() < 0.5 else '',
+            r = rng.random()
+            if r < 0.3:
+                token = self.twins.twin_of(rng, kw['parameters'][0])     # e.g. sound Vo.Greeting, token vo.greeting
+                if self.mode == 'img' and not all(0 < ord(ch) < 256 for ch in token):
+                    token = kw['parameters'][0]
+            elif r < 0.65:
+                token = self._str(rng, avoid)
+            else:
+                token = ''
+            return c.SpeakEvent(caption_type=ct, cc_token=token,
                                 suppress_caption_attenuation=rng.random() < 0.5,
                                 use_combined_file=comb, use_gender_token=rng.random() < 0.5, **kw)
         return c.Event(type=etype, **kw)
 
-    def gen_scene(self, rng, size=3, avoid=()):
+    def gen_scene(self, rng, size=3, avoid=(), keep_twins=False):
         c = self.c
         text = self.mode == 'text'
+        if not keep_twins or self.twins is None:
+            # one memory per value: for scenes.image it spans all the scenes sharing the pool
+            self.twins = Twins(allow=(lambda t: all(0 < ord(ch) < 256 for ch in t)) if self.mode == 'img' else None)
         events = [self._event(rng, size, avoid) for _ in range(rng.randrange(0, size + 1))]
         actors = []
         for _ in range(rng.randrange(0, size + 1)):
@@ -405,13 +474,14 @@ class ScenesImage(ChoreoBase):
         c = self.c
         version = rng.choice([2, 3])
         entries, seen = [], set()
+        self.twins = None
         for _ in range(rng.randrange(0, size + 2)):
             fname = 'scenes/' + ident(rng) + '.vcd' if rng.random() < 0.7 else ident(rng) + '\\' + ident(rng) + '.VCD'
             crc = c.checksum_filename(fname)
             if crc in seen:
                 continue
             seen.add(crc)
-            scene = self.gen_scene(rng, size, avoid)
+            scene = self.gen_scene(rng, size, avoid, keep_twins=True)
             if scene.duration() < 0.0 or scene.duration(c.EventType.Speak) < 0.0:
                 continue    # the summary stores the duration unsigned: negative durations are not representable
             e = c.Entry.from_scene(fname, scene)
@@ -482,13 +552,14 @@ class SndScript:
     def gen(self, rng, size=3, avoid=()):
         m = self.m
         sounds, seen = [], set()
+        tw = Twins()
         for _ in range(rng.randrange(1, size + 2)):
             # the KeyValues reader rejects line breaks in keys: not representable in a sound name
             name = (ident(rng) if 'name-special' in avoid else (anystr(rng).replace('\n', '').replace('\r', '') or 'n'))
             if name.casefold() in seen or name.startswith('#'):
                 continue
             seen.add(name.casefold())
-            wavs = [(ident(rng) + '.wav' if 'name-special' in avoid else anystr(rng, 14)) for _ in range(rng.choice([0, 1, 1, 2, 3]))]
+            wavs = [(ident(rng) + '.wav' if 'name-special' in avoid else tw(rng, lambda: anystr(rng, 14))) for _ in range(rng.choice([0, 1, 1, 2, 3]))]
             vol = self._pair(rng, [m.VOL_NORM], lambda: rng.choice([1.0, 0.5, rng.random(), grid(rng, 0, 1)]), avoid)
             pitch = self._pair(rng, list(m.Pitch), lambda: rng.choice([100.0, 95.0, grid(rng, 1, 255, 4), rng.uniform(1, 255)]), avoid)
             level = self._pair(rng, list(m.Level), lambda: rng.choice([75.0, grid(rng, 0, 180, 4), rng.uniform(0, 180), 1e-7]), avoid)
@@ -597,6 +668,15 @@ class Vmt:
     def gen(self, rng, size=3, avoid=()):
         shader = ident(rng) if ('shader-special' in avoid or rng.random() < 0.8) else (self._val(rng, avoid).strip() or 'S')
         params = {}
+        tw = Twins(allow=lambda t: '"' not in t and '\r' not in t)
+        raw_val = self._val
+        self._val = lambda rng, avoid, maxlen=10: tw(rng, lambda: raw_val(rng, avoid, maxlen))
+        try:
+            return self._gen(rng, size, avoid, shader, params)
+        finally:
+            del self._val
+
+    def _gen(self, rng, size, avoid, shader, params):
         for _ in range(rng.randrange(0, size + 3)):
             name = rng.choice(['$', '%', '']) + ident(rng) if rng.random() < 0.7 else (self._val(rng, avoid) or 'p')
             params[name] = self._val(rng, avoid) if rng.random() < 0.9 else ''
@@ -664,7 +744,7 @@ class Pcf:
         if k == 2:
             return A.bool(name, rng.random() < 0.5)
         if k == 3:
-            return A.string(name, rstr(rng, [ch for ch in ASCII_NONUL if ch not in '\r'], 16))
+            return A.string(name, self.tw(rng, lambda: rstr(rng, [ch for ch in ASCII_NONUL if ch not in '\r'], 16)))
         if k == 4:
             return A.vec3(name, grid(rng), grid(rng), grid(rng))
         if k == 5:
@@ -684,12 +764,13 @@ class Pcf:
         return out
 
     def _ops(self, rng, size, avoid):
-        return [self.m.Operator(ident(rng), rstr(rng, IDENT[:52] + [' '], 12, 1), self._opts(rng, 4, avoid))
+        return [self.m.Operator(self.tw(rng, lambda: ident(rng)), self.tw(rng, lambda: rstr(rng, IDENT[:52] + [' '], 12, 1)), self._opts(rng, 4, avoid))
                 for _ in range(rng.randrange(0, size + 1) if rng.random() < 0.6 else 0)]
 
     def gen(self, rng, size=3, avoid=()):
         m = self.m
         enc = rng.choice(['bin1', 'bin2', 'bin3', 'bin4', 'bin5', 'kv2'])
+        self.tw = Twins(allow=lambda t: all(0 < ord(ch) < 128 for ch in t) and t.strip() != '')
         if enc == 'kv2':
             avoid = tuple(avoid) + ('f32-inexact',)
         parts, seen = [], set()
@@ -800,8 +881,20 @@ class Smd:
     def gen(self, rng, size=3, avoid=()):
         m = self.m
         bones, lst = {}, []
+        ok = lambda t: all(ch in SMD_NAME for ch in t) and '//' not in t
+        twb = Twins(allow=lambda t: ok(t) and t == t.strip() and t != '', rate=0.3)
+        twm = Twins(allow=lambda t: ok(t) and '.' not in t and t == t.strip().rstrip('\\/ \t') and t not in ('', 'end'), rate=0.3)
+        raw_mat = self._mat
+        self._mat = lambda rng: twm(rng, lambda: raw_mat(rng))
+        try:
+            return self._gen(rng, size, avoid, bones, lst, twb)
+        finally:
+            del self._mat
+
+    def _gen(self, rng, size, avoid, bones, lst, twb):
+        m = self.m
         for _ in range(rng.randrange(1, size + 3)):
-            name = self._bname(rng)
+            name = twb(rng, lambda: self._bname(rng))
             if name in bones:
                 continue
             b = m.Bone(name, rng.choice(lst) if lst and rng.random() < 0.8 else None)
